@@ -1,7 +1,7 @@
 """C16 No peer-supplied input can crash an endpoint — E-TAINT partial-operation rule + panic-site inventory (tarpc's own code)."""
 from engine.facts import CannotDecide, callee_is, path_matches, strip_generics, is_tracing
 from engine.prov import const_int
-from .common import norm_path, in_module, MINLIKE, Table
+from .common import norm_path, in_module, MINLIKE, Table, returns_at_most
 from engine.facts import ty_head
 
 EXTRA_CONFIGS = ('default', 'tokio1', 'serde1', 'serde-transport')   # feature configurations re-analysed in the thorough tier
@@ -98,6 +98,39 @@ class Taint:
                 return 'parameter `%s: %s` of %s' % (f.local_name(ru[2]) or ru[2], ty.split('::')[-1], F.enclosing_item(f).npath)
         return None
 
+    def _is_constant(self, a):
+        P = self.P
+        rs = P.root(a)
+        return bool(rs) and all(x[0] == 'const' or P.is_call(x, 'Duration::from_secs', 'Duration::from_millis', 'Duration::new') for x, _ in rs)
+
+    def bounded_by_local_min(self, term, depth=3):
+        """every alternative of the value is the result of a local function that returns at most one of its arguments (a hand-written min, possibly behind
+        one more local wrapper), called with a constant for that argument"""
+        P, F = self.P, self.F
+        if depth == 0:
+            return False
+        rs = P.root(term, through_params=True, inline=False)
+        if not rs:
+            return False
+        for r, p in rs:
+            if norm_path(p):
+                return False
+            ru = P.unbound(r)
+            if ru[0] != 'call':
+                return False
+            g = F.callee_fn(P.call_term(ru))
+            if g is None or g.coroutine:
+                return False
+            args = P.args_of(r)
+            ks = returns_at_most(F, P, g)
+            if any(k - 1 < len(args) and self._is_constant(args[k - 1]) for k in ks):
+                continue
+            # a wrapper: its own result is bounded in the same way (arguments bound to this call)
+            ret = P.subst(P._local_whole(g, 0), g.id, args)
+            if not self.bounded_by_local_min(ret, depth - 1):
+                return False
+        return True
+
     def tainted(self, term, depth=10):
         """returns a description of an unsanitised tainted source reaching term, or None"""
         P = self.P
@@ -108,6 +141,8 @@ class Taint:
             return self.memo[key]
         self.memo[key] = None
         res = None
+        if self.bounded_by_local_min(term):
+            return None
         for r, p in P.root(term, through_params=True):
             ru = P.unbound(r)
             if ru[0] == 'const':
